@@ -69,6 +69,10 @@ type client struct {
 	cur    Op
 	isEpi  bool
 	isClo  bool
+	// Wait bookkeeping (C15 "goroutines blocked in Wait have been released")
+	waitSeq    int  // number of Wait calls started by this client
+	waitQueued bool // the current Wait's marker has entered the write buffer
+	waitQIdx   int  // ... as the waitQIdx-th marker of the run (markers leave the buffer in that order)
 }
 
 // Engine runs one plan.
@@ -105,6 +109,8 @@ type Engine struct {
 	seqNow         uint64
 	lastPolicyPush uint64 // seq at which the policy goroutine last recorded a batch
 	lastClearInv   uint64 // seq of the latest Clear invocation
+	nMarkerQueued  int    // Wait markers that have entered the write buffer
+	nMarkerClosed  int    // Wait markers closed (by the applier or by a Clear's drain)
 	keyHash        []uint64
 	keyConf        []uint64
 	pendingNew     map[uint64]int // buffered new items per key hash (probes only)
@@ -503,6 +509,9 @@ func hookEvent(kind int, key uint64, a, b int64) {
 		}
 	case evClearMarker:
 		probe(PrClearReleasedWaiter)
+		e.nMarkerClosed++
+	case evApplierMarker:
+		e.nMarkerClosed++
 	case evClearDrained:
 		switch a {
 		case 0:
@@ -589,9 +598,11 @@ func (e *Engine) Run(plan *Plan, dec *core.Decider) *RunResult {
 	core.S = sim
 	sim.YieldFilter = e.onYield
 	sim.NotifySite = siteDelSent
+	sim.NotifySite2 = ristrettoSiteWaitRecv
 	if plan.Flags.Race {
 		sim.YieldFilter = raceYieldFilter
 		sim.NotifySite = -1
+		sim.NotifySite2 = -1
 	}
 	e.picker = core.NewPicker(plan.Sim.Sched, dec)
 
@@ -759,7 +770,8 @@ func (e *Engine) closerMayGo() bool {
 				return false
 			}
 		case core.StRunning:
-			if !(cl.inOp && cl.cur.K == OpWait && cl.task.Site == ristrettoSiteWaitRecv) {
+			// blocked inside Wait: on the marker send (full write buffer) or on the marker itself
+			if !(cl.inOp && cl.cur.K == OpWait && (cl.task.Site == ristrettoSiteWaitRecv || cl.task.Site == ristretto.VerifSiteWaitSend)) {
 				return false
 			}
 		default:
@@ -840,6 +852,63 @@ func (e *Engine) flushNotifies() {
 			t.Notify = false
 			e.log(Ev{Kind: EvHook, Op: evDelQueued, Key: e.logicalKey(t.Key), H: t.Key, Task: -1})
 		}
+		if t.Notify && t.State() == core.StParked && t.Site == ristrettoSiteWaitRecv {
+			// a Wait marker has entered the write buffer (at most one per step:
+			// the order of these parks is the order of the markers in the buffer)
+			t.Notify = false
+			if cl := e.clientOf(t); cl != nil {
+				cl.waitQueued, cl.waitQIdx = true, e.nMarkerQueued
+			}
+			e.nMarkerQueued++
+		}
+	}
+}
+
+type blockedWaiter struct {
+	cl  *client
+	seq int
+}
+
+// blockedWaiters: the other callers that are blocked inside Wait right now -
+// durably blocked on the marker send (full write buffer) or past the send.
+// Called in task context at the very start of a step: every other task is
+// parked or blocked.
+func (e *Engine) blockedWaiters(self *client) []blockedWaiter {
+	var out []blockedWaiter
+	add := func(cl *client) {
+		if cl == nil || cl == self || !cl.inOp || cl.cur.K != OpWait || cl.task == nil {
+			return
+		}
+		st, site := cl.task.State(), cl.task.Site
+		if (st == core.StRunning && (site == ristretto.VerifSiteWaitSend || site == ristrettoSiteWaitRecv)) || (st == core.StParked && site == ristrettoSiteWaitRecv) {
+			out = append(out, blockedWaiter{cl, cl.waitSeq})
+		}
+	}
+	for _, cl := range e.clients {
+		add(cl)
+	}
+	add(e.epi)
+	add(e.closer)
+	return out
+}
+
+// checkWaitersReleased: after Clear returns, goroutines blocked in Wait have
+// been released (C15): the marker of every Wait that was blocked when the
+// Clear was invoked has left the write buffer and has been closed. Markers
+// leave the buffer in the order they entered it, so the k-th marker queued is
+// the k-th marker closed.
+func (e *Engine) checkWaitersReleased(ws []blockedWaiter, clearInv uint64, what string) {
+	for _, w := range ws {
+		cl := w.cl
+		if cl.waitSeq != w.seq || !cl.inOp || cl.cur.K != OpWait {
+			continue // that Wait has returned
+		}
+		probe(PrWaiterReleaseChecked)
+		if !cl.waitQueued {
+			e.violate("C15", "waiter-not-released", fmt.Sprintf("a Wait (client %d) was blocked on the full write buffer when %s was invoked at #%d and is still blocked on it after %s returned", cl.id, what, clearInv, what), 0)
+		} else if e.nMarkerClosed <= cl.waitQIdx {
+			e.violate("C15", "waiter-not-released", fmt.Sprintf("a Wait (client %d) was blocked when %s was invoked at #%d; after %s returned its marker is still in the write buffer (marker %d, %d closed so far)", cl.id, what, clearInv, what, cl.waitQIdx, e.nMarkerClosed), 0)
+		}
 	}
 }
 
@@ -877,6 +946,12 @@ func (e *Engine) schedule(done func() bool, fair bool) string {
 				for _, cl := range e.clients {
 					if cl.task.State() == core.StRunning {
 						probe(PrCloseWithWaiter)
+						break
+					}
+				}
+				for _, cl := range e.clients {
+					if cl.task.State() == core.StRunning && cl.task.Site == ristretto.VerifSiteWaitSend {
+						probe(PrCloseWaiterAtSend)
 						break
 					}
 				}
@@ -1281,6 +1356,8 @@ func (e *Engine) runOp(cl *client, oi int, op Op) {
 	case OpWait:
 		e.opBegin(cl, op)
 		inv := e.log(Ev{Kind: EvInvoke, Op: OpWait, Task: tk, OpIx: ix})
+		cl.waitSeq++
+		cl.waitQueued = false
 		e.api.Wait()
 		e.log(Ev{Kind: EvReturn, Op: OpWait, Task: tk, OpIx: ix, Ref: inv})
 		e.opEnd(cl)
@@ -1290,8 +1367,12 @@ func (e *Engine) runOp(cl *client, oi int, op Op) {
 		inv := e.log(Ev{Kind: EvInvoke, Op: OpClear, Task: tk, OpIx: ix})
 		atomic.StoreUint64(&e.lastClearInv, inv)
 		wasClosed := e.closed
+		waiters := e.blockedWaiters(cl)
 		e.api.Clear()
 		e.log(Ev{Kind: EvReturn, Op: OpClear, Task: tk, OpIx: ix, Ref: inv, B: b2i(wasClosed)})
+		if !wasClosed && !e.closed {
+			e.checkWaitersReleased(waiters, inv, "Clear")
+		}
 		if !wasClosed && !e.clearDirty && atomic.LoadInt32(&e.clearActive) == 1 && atomic.LoadInt32(&e.inflight) == 1 {
 			e.checkFreshAfterCleanClear(inv)
 		}
